@@ -14,7 +14,8 @@ talk about the matcher are stated for every such `M`.
 
 Encoding
 * a node dictionary is split into `name` (= `atomname`), `elem` (= `element`, as an integer code;
-  the harness uses the big-endian bytes of the string), `ptm` (= `PTM_atom`) and `attrs` = every
+  the harness uses the big-endian bytes of the string), `ptm` (= `PTM_atom`; block atoms contributed
+  by a requested modification carry `PTM_atom = True` and hand it on) and `attrs` = every
   other attribute in dictionary order, values as `repr` strings (`position` and `graph` never
   cross the boundary);
 * reference (block) atoms are keyed by their index in the block's node order;
@@ -40,7 +41,8 @@ structure Atom where
   name : String
   elem : Int
   attrs : Attrs
-  ptm : Bool
+  /-- `PTM_atom`: absent / False / True -/
+  ptm : Option Bool
   deriving Repr, DecidableEq, Inhabited
 
 structure Mol where
@@ -122,10 +124,14 @@ def resGraph (m : Mol) (found : List Int) : Graph :=
 
 /-! ### step 1: canonical attributes onto matched atoms; which block atoms are missing -/
 
+/-- `node.update(ref_node)` -/
+def canonAtom (a ref : Atom) : Atom :=
+  { key := a.key, name := ref.name, elem := ref.elem, attrs := updAttrs a.attrs (refAttrs ref),
+    ptm := ref.ptm.orElse fun _ => a.ptm }
+
 /-- `node.update(ref_node)` on the atom with key `k` -/
 def updateNode (nodes : List Atom) (k : Int) (ref : Atom) : List Atom :=
-  nodes.map fun a =>
-    if a.key = k then { a with name := ref.name, elem := ref.elem, attrs := updAttrs a.attrs (refAttrs ref) } else a
+  nodes.map fun a => if a.key = k then canonAtom a ref else a
 
 def canonicalise (b : Block) (M : Map) (nodes : List Atom) : List Atom :=
   b.nodes.foldl (fun ns r => match M.lookup r.key with
@@ -147,7 +153,7 @@ structure RState where
 
 def newAtom (common : Attrs) (ref : Atom) (k : Int) : Atom :=
   { key := k, name := ref.name, elem := ref.elem,
-    attrs := setAttr (updAttrs common (refAttrs ref)) "atomid" (toString (k + 1)), ptm := false }
+    attrs := setAttr (updAttrs common (refAttrs ref)) "atomid" (toString (k + 1)), ptm := ref.ptm }
 
 /-- the new edges of the fresh atom `k` playing block atom `r`: one to every neighbour that has a match -/
 def newEdges (bedges : List (Int × Int)) (M : Map) (r k : Int) : List (Int × Int) :=
@@ -199,7 +205,7 @@ def dom (M : Map) : List Int := M.map Prod.fst
 def extraAtoms (found : List Int) (M : Map) : List Int := found.filter fun k => !(ran M).contains k
 
 def flagExtra (extra : List Int) (nodes : List Atom) (edges : List (Int × Int)) : Mol :=
-  let flagged := nodes.map fun a => if extra.contains a.key then { a with ptm := true } else a
+  let flagged := nodes.map fun a => if extra.contains a.key then { a with ptm := some true } else a
   let gone := (flagged.filter fun a => extra.contains a.key && requested a).map (·.key)
   { nodes := flagged.filter fun a => !gone.contains a.key,
     edges := edges.filter fun e => !gone.contains e.1 && !gone.contains e.2 }
